@@ -154,6 +154,11 @@ func (column *ColumnData) Length() int {
 	return int(binary.BigEndian.Uint32(column.LengthBuf[:]))
 }
 
+// isNullLength return true if LengthBuf holds the NULL marker (-1)
+func (column *ColumnData) isNullLength() bool {
+	return int32(binary.BigEndian.Uint32(column.LengthBuf[:])) == NullColumnValue
+}
+
 // IsNull return true if column has null value
 func (column *ColumnData) IsNull() bool {
 	return column.isNull
@@ -216,6 +221,9 @@ func (column *ColumnData) SetDataLength(length uint32) {
 
 // parseColumns split whole data row packet into separate columns data
 func (packet *PacketHandler) parseColumns(columnFormats []uint16) error {
+	if packet.descriptionBuf.Len() < 2 {
+		return ErrPacketTruncated
+	}
 	packet.columnCount = int(binary.BigEndian.Uint16(packet.descriptionBuf.Bytes()[:2]))
 
 	if packet.columnCount == 0 {
@@ -231,6 +239,10 @@ func (packet *PacketHandler) parseColumns(columnFormats []uint16) error {
 		format, err := GetParameterFormatByIndex(i, columnFormats)
 		if err != nil {
 			return err
+		}
+		// the column cannot be longer than the rest of the packet
+		if !column.isNullLength() && column.Length() > columnReader.Len() {
+			return ErrPacketTruncated
 		}
 		if err := column.readData(columnReader, format); err != nil {
 			return err
@@ -441,6 +453,10 @@ func (packet *PacketHandler) ReplaceBind(bindPacket *BindPacket) error {
 
 // GetSimpleQuery return query value as string from Query packet
 func (packet *PacketHandler) GetSimpleQuery() (string, error) {
+	// query + '0' terminator
+	if packet.dataLength < 1 || packet.dataLength > packet.descriptionBuf.Len() {
+		return "", ErrMalformedPacketLength
+	}
 	return string(packet.descriptionBuf.Bytes()[:packet.dataLength-1]), nil
 }
 
